@@ -572,7 +572,7 @@ func Go(f func()) { GoNamed("", f) }
 
 func GoNamed(name string, f func()) {
 	if !s.active {
-		go f()
+		nativeGo(name, f) // `go f()` plus native tracking (native.go); used by Engine R helpers and the race pass
 		return
 	}
 	if s.aborting {
